@@ -268,7 +268,7 @@ func c02Valid(input sx.S) bool {
 	return true
 }
 
-var profC02 = profile{noWrongType: true, pFail: 0.08, pIll: 0, pDir: 0.2, pAlias: 0.3, pFrag: 0.15, pInline: 0.15, pArgs: 1, pAny: 0, pBadCall: 0, pNullObj: 0.05, maxDepth: 4, calls: 1}
+var profC02 = profile{noWrongType: true, pFail: 0.08, pIll: 0, pDir: 0.2, pAlias: 0.3, pFrag: 0.15, pInline: 0.15, pArgs: 0.7, pAny: 0, pBadCall: 0, pNullObj: 0.05, maxDepth: 4, calls: 1}
 
 func c02Gen(r *rand.Rand, tier string) []Case {
 	n := 400
@@ -301,7 +301,15 @@ func c02Gen(r *rand.Rand, tier string) []Case {
 			}
 			return a
 		}
-		asg := []sx.S{"assignments", all("R", 1), all("A", 1), all("F", 1), all("F", 0), mix("RA", 1), mix("RF", 1), mix("RF", 0), all("F", 2)}
+		// bindings discovered on first use cannot serve abstract types on a cold root (the documentation
+		// asks for RegisterType there): with an interface or union in the schema every assignment registers
+		disc := 0
+		for _, t := range section(secs, "schema") {
+			if sx.Head(t) == "iface" || sx.Head(t) == "union" {
+				disc = 1
+			}
+		}
+		asg := []sx.S{"assignments", all("R", 1), all("A", 1), all("F", 1), all("F", disc), mix("RA", 1), mix("RF", 1), mix("RF", disc), all("F", 2)}
 		c.Input = append(sx.List(c.Input), asg)
 		c.Tags = append(c.Tags, "nontrivial")
 		out = append(out, c)
